@@ -35,7 +35,8 @@ THEOREMS = [
     "CatEvals.empty_sim_skipped", "CatEvals.undersampled_finite", "CatEvals.undersampled_nothing_left",
     "CatEvals.never_silent_negInf", "CatEvals.expected_count_eq_mean", "CatEvals.s_dist_eq_doc",
     "CatEvals.pl_dist_eq_doc", "CatEvals.undersampled_iff_unsampled_cell", "CatEvals.calibration_skips_notvalid",
-    "CatEvals.spatial_sentinel_iff_notValid",
+    "CatEvals.spatial_sentinel_iff_notValid", "CatEvals.ntest_counts_all_events",
+    "CatEvals.mag_tests_ignore_out_of_range", "CatEvals.mag_tests_out_zero", "CatEvals.empty_obs_signalled_out",
 ]
 TRUSTED = ["Lean 4.33 kernel", "axioms: propext, Classical.choice, Quot.sound at most",
            "Real.log / an abstract loggamma stand for numpy.log, numpy.log10 (= log/log 10) and scipy.special.loggamma; "
@@ -50,11 +51,29 @@ RULE = ("catalog forecasts of 1..30 synthetic catalogs (each empty with a per-ca
         "n_cat, catalogs with/without region) or streamed from a generated CSV file (store on/off, empty catalogs as "
         "placeholder rows or id gaps); regions of 1..40 cells (random subsets of a lattice) x 1..6 magnitude bins; "
         "observations: empty, single event, all/some events in never-sampled cells, many per cell, copy of a synthetic "
-        "catalog (ties); all six tests in random order on the same forecast object + calibration_test on the results; "
+        "catalog (ties), observations NOT cut at the minimum magnitude (1..6 further events below region.magnitudes[0]: "
+        "the number test counts them, the three magnitude tests must give the result of the cut catalog; spatial and "
+        "pseudo-likelihood tests are not run on these); call sequences: [N-test | get_event_counts | plain loop], then "
+        "the synthetic catalogs are changed in place inside / outside a loop over the forecast (filter on magnitude or "
+        "longitude with a string or a list, truncation of catalog.catalog, replaced list entries; all or some catalogs), "
+        "then the tests: every result must be that of the catalogs as they are now (of the file for store=False); "
+        "all six tests in random order on the same forecast object + calibration_test on the results; "
         "non-trivial = at least one test returned status normal/undersampled with a non-empty distribution; distinct by "
         "(region sizes, all count matrices, mode)")
 
 TOL = 1e-9
+
+# Sub-classes of inputs on which UNCHANGED pyCSEP itself departs from the property (genuine-defect candidates, see
+# notes/C10.md "Observed"): they are not generated while their name is listed here, so that the check stays green until
+# it is decided whether pyCSEP is repaired ("fix:" commit) or the behaviour is recorded as a known finding.
+#  obs-all-below-min-magnitude: the observed catalog is not empty but NONE of its events lies in the magnitude range
+#    (all below region.magnitudes[0]); magnitude_test / resampled_magnitude_test / MLL_magnitude_test look at
+#    event_count for their short-circuit, go on with N_obs = 0 and report status 'normal' with d_obs = 0 and quantile
+#    (1.0, 1.0) / (None, None), the MLL test a nan statistic with quantile (1.0, 1.0).
+#  expected-rates-read-before-inplace-change: call sequence get_expected_rates() (or any test / plot that caches
+#    forecast.expected_rates) -> synthetic catalogs changed in place -> tests: the cached mean rates are those of the
+#    catalogs BEFORE the change while every D_j / S_j / L_j is computed from the catalogs AFTER it.
+AWAITING_DECISION = ["obs-all-below-min-magnitude", "expected-rates-read-before-inplace-change"]
 
 
 # ----------------------------------------------------------------------------- small helpers
@@ -165,10 +184,73 @@ def gen_case(rng, tier):
     else:
         obs = draw_events(rng.randint(1, nmax), sampled, cw)
     mode = rng.choice(["memory", "memory", "memory-noncat", "stream-store", "stream-nostore"])
-    return dict(C=C, K=K, cells=cells, dh=dh, x0=x0, y0=y0, m0=m0, dm=dm, sims=sims, obs=obs, kind=kind, mode=mode,
+    case = dict(C=C, K=K, cells=cells, dh=dh, x0=x0, y0=y0, m0=m0, dm=dm, sims=sims, obs=obs, kind=kind, mode=mode,
                 cat_region=rng.random() < 0.5, gap_empty=rng.random() < 0.5, top_open=rng.random() < 0.3,
                 order=rng.sample(["n", "s", "m", "pl", "rm", "mll", "mllfull"], 7),
                 seed=rng.choice([0, 1, 2, 12345, rng.randrange(2 ** 31)]), both_modes=rng.random() < 0.3)
+    # (a) the observation was not cut at the minimum magnitude: further events below region.magnitudes[0]
+    if rng.random() < 0.22:
+        all_below = rng.random() < 0.15 and "obs-all-below-min-magnitude" not in AWAITING_DECISION
+        if obs or all_below:
+            if all_below:
+                case["obs"] = []
+            case["obs_out"] = [(rng.randrange(C), rng.choice([0.25, 0.5, 0.75]), rng.choice([0.25, 0.5, 0.75]),
+                                rng.choice([0.05, 0.3, 0.75])) for _ in range(rng.randint(1, 6))]
+            case["kind"] = "all-below-min-mag" if all_below else kind + "+below-min-mag"
+            case["order"] = [t for t in case["order"] if t not in ("s", "pl")]
+    # (b) a call sequence that changes the synthetic catalogs in place before the tests
+    if rng.random() < 0.25:
+        case["premut"] = gen_premut(rng, case, draw_events, sampled, cw)
+    return case
+
+
+def gen_premut(rng, case, draw_events, sampled, cw):
+    mode, J = case["mode"], len(case["sims"])
+    mut = rng.choice(["filter-mag", "filter-mag", "filter-mag-list", "filter-lon", "truncate", "replace"])
+    where = rng.choice(["in-loop", "in-loop", "direct"])
+    pre = rng.choice(["none", "none", "ntest", "counts", "loop"])
+    if "expected-rates-read-before-inplace-change" not in AWAITING_DECISION and rng.random() < 0.2:
+        pre = "rates"
+    if mode == "stream-nostore":
+        where = "in-loop"
+        if mut == "replace":
+            mut = "filter-mag"
+    if mode == "stream-store" and pre == "none":
+        where = "in-loop"              # before the first pass the forecast holds a generator, not a list
+    xs = sorted(set(ix for ix, _ in case["cells"]))
+    return dict(pre=pre, mut=mut, where=where, subset=rng.choice(["all", "all", "even", "first"]),
+                k0=rng.randint(0, case["K"] - 1) if rng.random() < 0.8 else case["K"] - 1, ix0=rng.choice(xs),
+                repl=[draw_events(rng.randint(0, 4), sampled, cw) for _ in range(J)])
+
+
+def premut_chosen(pm, J):
+    idx = list(range(J))
+    return idx if pm["subset"] == "all" else (idx[::2] if pm["subset"] == "even" else idx[:1])
+
+
+def effective_sims(case, mode):
+    """the synthetic catalogs as they are when the tests run (harness's own bookkeeping of the in-place changes)"""
+    pm = case.get("premut")
+    if not pm or mode == "stream-nostore":       # a forecast re-read from file on every pass forgets the changes
+        return case["sims"]
+    out = [list(s) for s in case["sims"]]
+    for j in premut_chosen(pm, len(out)):
+        evs = out[j]
+        if pm["mut"] in ("filter-mag", "filter-mag-list"):
+            out[j] = [e for e in evs if e[1] >= pm["k0"]]
+        elif pm["mut"] == "filter-lon":
+            out[j] = [e for e in evs if case["cells"][e[0]][0] >= pm["ix0"]]
+        elif pm["mut"] == "truncate":
+            out[j] = evs[:len(evs) // 2]
+        elif pm["mut"] == "replace":
+            out[j] = [tuple(e) for e in pm["repl"][j]]
+    return out
+
+
+def effective_case(case, mode=None):
+    if not case.get("premut"):
+        return case
+    return dict(case, sims=effective_sims(case, mode or case["mode"]))
 
 
 def grid_of(events, C, K):
@@ -245,6 +327,64 @@ def build_forecast(case, mode, region, origins, mags, tmpdir):
                                       apply_filters=False)
 
 
+def make_observation(case, region, origins, mags):
+    """observed catalog: the events inside the magnitude range plus `obs_out` events below region.magnitudes[0]
+    (interleaved), as a catalog that was filtered in space and time only"""
+    from csep.core.catalogs import CSEPCatalog
+    rows = event_rows(case, origins, mags, case["obs"])
+    for n, (c, fx, fy, drop) in enumerate(case.get("obs_out") or []):
+        row = (float(origins[c][0]) + case["dh"] * fx, float(origins[c][1]) + case["dh"] * fy, float(mags[0]) - drop)
+        rows.insert(min(len(rows), 2 * n), row)
+    data = [(str(i), 1000 * (i + 1), lat, lon, 5.0, mag) for i, (lon, lat, mag) in enumerate(rows)]
+    return CSEPCatalog(data=data, region=region)
+
+
+def apply_premut(case, mode, fc, obs, region, origins, mags):
+    """[first pass] -> the synthetic catalogs are changed in place (inside / outside a loop over the forecast)"""
+    pm = case.get("premut")
+    if not pm:
+        return
+    from csep.core import catalog_evaluations as ce
+    J = len(case["sims"])
+    chosen = premut_chosen(pm, J)
+    with quiet():
+        if pm["pre"] == "ntest":
+            ce.number_test(fc, obs, verbose=False)
+        elif pm["pre"] == "counts":
+            fc.get_event_counts(verbose=False)
+        elif pm["pre"] == "loop":
+            for _ in fc:
+                pass
+        elif pm["pre"] == "rates":
+            fc.get_expected_rates()
+
+        def mutate(j, c):
+            if j not in chosen:
+                return
+            if pm["mut"] == "filter-mag":
+                c.filter(f"magnitude >= {float(mags[pm['k0']])!r}")
+            elif pm["mut"] == "filter-mag-list":
+                c.filter([f"magnitude >= {float(mags[pm['k0']])!r}"])
+            elif pm["mut"] == "filter-lon":
+                c.filter(f"longitude >= {float(case['x0'] + pm['ix0'] * case['dh'])!r}")
+            elif pm["mut"] == "truncate":
+                c.catalog = c.catalog[:len(c.catalog) // 2]
+        if pm["mut"] == "replace":
+            if pm["where"] == "in-loop" or not isinstance(fc.catalogs, list):
+                for _ in fc:            # a complete pass; afterwards the catalogs are a list on the forecast
+                    pass
+            for j in chosen:
+                fc.catalogs[j] = make_catalog(case, region, origins, mags, [tuple(e) for e in pm["repl"][j]],
+                                              with_region=case["cat_region"], cid=j)
+        elif pm["where"] == "in-loop" or not isinstance(fc.catalogs, list):
+            # (a streamed forecast holds a generator until its first pass is complete: only the loop reaches its catalogs)
+            for j, c in enumerate(fc):
+                mutate(j, c)
+        else:
+            for j, c in enumerate(fc.catalogs):
+                mutate(j, c)
+
+
 # ----------------------------------------------------------------------------- running the implementation
 def canon_result(r):
     """canonical, JSON-able form of an evaluation result"""
@@ -266,13 +406,18 @@ def run_impl(case, mode, tmpdir):
     """returns dict test -> canonical result / ('error', type), plus recorded draws and mean rates"""
     from csep.core import catalog_evaluations as ce
     region, origins, mags = build_region(case)
-    fc = build_forecast(case, mode, region, origins, mags, tmpdir)
-    obs = make_catalog(case, region, origins, mags, case["obs"], with_region=True)
+    obs = make_observation(case, region, origins, mags)
+
+    def fresh():
+        f = build_forecast(case, mode, region, origins, mags, tmpdir)
+        apply_premut(case, mode, f, obs, region, origins, mags)
+        return f
+    fc = fresh()
     out, draws, raw = {}, {}, {}
-    n_union = sum(len(s) for s in case["sims"])
+    n_union = sum(len(s) for s in effective_sims(case, mode))
     for t in case["order"]:
         rec = []
-        if t in ("rm", "mll", "mllfull") and n_union == 0 and case["obs"]:
+        if t in ("rm", "mll", "mllfull") and n_union == 0 and (case["obs"] or case.get("obs_out")):
             # resampling from an empty union histogram is undefined (probabilities 0/0): outside the domain
             out[t] = ("error", "skipped-empty-union", "")
             draws[t] = rec
@@ -307,7 +452,7 @@ def run_impl(case, mode, tmpdir):
         except Exception as e:
             out[t] = ("error", type(e).__name__, str(e)[:120])
             # an exception inside a pass leaves the forecast's cursor mid-way (C13): start from a fresh object
-            fc = build_forecast(case, mode, region, origins, mags, tmpdir)
+            fc = fresh()
         draws[t] = rec
     rates = None
     if fc.expected_rates is not None:
@@ -335,11 +480,12 @@ def oracle(case, out, draws_h, rates):
     """list of failure strings: the implementation's outputs against the documented definitions"""
     bad = []
     C, K = case["C"], case["K"]
-    G = [grid_of(s, C, K) for s in case["sims"]]
+    G = [grid_of(s, C, K) for s in case["sims"]]       # the caller passes the case with the EFFECTIVE synthetic catalogs
     O = grid_of(case["obs"], C, K)
     J = len(G)
     Nj = [sum(map(sum, g)) for g in G]
-    Nobs = sum(map(sum, O))
+    Nobs = sum(map(sum, O))                            # observed events inside the magnitude range: sum_k Omega(k)
+    Nout = len(case.get("obs_out") or [])              # observed events below the first magnitude edge
     NU = sum(Nj)
     sp_u = [sum(sum(g[i]) for g in G) for i in range(C)]            # union spatial counts
     mg_u = [sum(g[i][k] for g in G for i in range(C)) for k in range(K)]   # union magnitude histogram
@@ -398,11 +544,20 @@ def oracle(case, out, draws_h, rates):
             continue
         # ---------------------------------------------------------------- number test
         if t == "n":
-            if r["dist"] != Nj or r["observed"] != Nobs or r["status"] != "normal":
-                bad.append(f"n: distribution/observed {r['dist']}/{r['observed']} != {Nj}/{Nobs}")
-            ge, le, n = qcount(Nj, Nobs)
+            # the number test counts every event of the observed catalog and of the synthetic catalogs as they are now
+            if r["dist"] != Nj or r["observed"] != Nobs + Nout or r["status"] != "normal":
+                bad.append(f"n: distribution/observed {r['dist']}/{r['observed']} != {Nj}/{Nobs + Nout}")
+            ge, le, n = qcount(Nj, Nobs + Nout)
             if r["quantile"] != [ge / n, le / n]:
                 bad.append(f"n: quantile {r['quantile']} != ({ge}/{n}, {le}/{n})")
+            continue
+        # ---------------------------------------------------------------- no observed event in the magnitude range
+        if Nobs == 0 and Nout > 0:
+            # sub-class "obs-all-below-min-magnitude" (only generated once it has left AWAITING_DECISION; S / PL are
+            # not run on such observations): the magnitude statistics are undefined and must be signalled
+            if r is None or r["status"] != "not-valid" or r["quantile"] != "none" or r["dist"] or \
+                    not (r["observed"] is None or math.isnan(r["observed"])):
+                bad.append(f"{t}: no observed event inside the magnitude range ({Nout} below it) is not signalled: {r}")
             continue
         # ---------------------------------------------------------------- empty observation
         if Nobs == 0:
@@ -554,12 +709,24 @@ def same_result(impl, model):
 
 
 OPS = dict(s="c10_s", pl="c10_pl", m="c10_m", rm="c10_rm", mll="c10_mll", mllfull="c10_mll")
+OPS_OUT = dict(m="c10_mo", rm="c10_rmo", mll="c10_mllo", mllfull="c10_mllo")
 
 
 def queue_model(drv, case, draws_h):
     C, K = case["C"], case["K"]
     sims = ";".join(flat(grid_of(s, C, K)) for s in case["sims"])
     obs = flat(grid_of(case["obs"], C, K))
+    nout = len(case.get("obs_out") or [])
+    if nout:
+        # observation with events below the first magnitude edge: the `...Out` models (count matrix + their number)
+        idx = {"n": drv.ask(f"c10_no {C} {K} {sims} {obs} {nout}"), "rates": drv.ask(f"c10_rates {C} {K} {sims}")}
+        for t, op in OPS_OUT.items():
+            if t == "m":
+                idx[t] = drv.ask(f"{op} {C} {K} {sims} {obs} {nout}")
+            else:
+                d = ";".join(",".join(map(str, h)) for h in draws_h.get(t, [])) or "-"
+                idx[t] = drv.ask(f"{op} {C} {K} {sims} {obs} {d} {nout}")
+        return idx
     idx = {"n": drv.ask(f"c10_n {C} {K} {sims} {obs}"), "rates": drv.ask(f"c10_rates {C} {K} {sims}")}
     for t, op in OPS.items():
         if t in ("rm", "mll", "mllfull"):
@@ -621,21 +788,32 @@ def check_case(run, drv, pending, case):
     try:
         out, draws, rates, raw, mags = run_impl(case, case["mode"], tmpdir)
         other = None
-        if case.get("both_modes"):
+        if case.get("both_modes") and not (case.get("premut") and case["mode"] == "stream-nostore"):
             m2 = "stream-store" if case["mode"].startswith("memory") else "memory"
             other = run_impl(case, m2, tmpdir)[0]
     finally:
         shutil.rmtree(tmpdir, ignore_errors=True)
+    full_case = case
+    case = effective_case(case)      # oracle and model see the synthetic catalogs as they are when the tests run
     C, K = case["C"], case["K"]
     draws_h = {t: [hist_of_draw(v, mags, K) for v in draws.get(t, [])] for t in ("rm", "mll", "mllfull")}
-    slim = {k: v for k, v in case.items()}
+    slim = {k: v for k, v in full_case.items()}
     nontriv = any(isinstance(r, dict) and r["status"] in ("normal", "undersampled") and r["dist"]
                   for t, r in out.items() if t != "n")
-    key = (C, K, tuple(flat(grid_of(s, C, K)) for s in case["sims"]), flat(grid_of(case["obs"], C, K)), case["mode"])
+    pm = full_case.get("premut")
+    key = (C, K, tuple(flat(grid_of(s, C, K)) for s in full_case["sims"]), flat(grid_of(case["obs"], C, K)), case["mode"],
+           len(case.get("obs_out") or []), str(pm and (pm["pre"], pm["mut"], pm["where"], pm["subset"], pm["k0"], pm["ix0"])))
     run.case(dict(C=C, K=K, J=len(case["sims"]), kind=case["kind"], mode=case["mode"],
-                  n_obs=len(case["obs"]), sizes=[len(s) for s in case["sims"]][:12]), key if nontriv else None)
+                  n_obs=len(case["obs"]), n_obs_below_min_mag=len(case.get("obs_out") or []),
+                  sizes=[len(s) for s in case["sims"]][:12],
+                  premut=pm and dict(pre=pm["pre"], mut=pm["mut"], where=pm["where"], subset=pm["subset"])),
+             key if nontriv else None)
     run.count("obs:" + case["kind"])
     run.count("mode:" + case["mode"])
+    if pm:
+        changed = [len(a) for a in case["sims"]] != [len(a) for a in full_case["sims"]]
+        run.count(f"premut:{pm['mut']}:{pm['where']}:{case['mode']}" + (":sizes-changed" if changed else ""))
+        run.count("premut-pre:" + pm["pre"])
     for t, r in out.items():
         if isinstance(r, tuple):
             run.count(f"{t}:error:{r[1]}")
@@ -702,6 +880,10 @@ def flush(run, drv, pending):
                     and close(unbits(tot), rates["total"], 1e-12)):
                 run.mismatch(case, rates, res[idx["rates"]])
         for t in OPS:
+            if t not in out or t not in idx:
+                continue   # test not run on this case (S / PL with observed events outside the magnitude range)
+            if case.get("obs_out") and not case["obs"]:
+                continue   # sub-class obs-all-below-min-magnitude: judged by the oracle alone (see AWAITING_DECISION)
             r = out.get(t)
             if isinstance(r, tuple):
                 continue   # exceptions are judged by the oracle
@@ -757,6 +939,10 @@ def _from_json(c):
     c["cells"] = [tuple(x) for x in c["cells"]]
     c["sims"] = [[tuple(e) for e in s] for s in c["sims"]]
     c["obs"] = [tuple(e) for e in c["obs"]]
+    if c.get("obs_out"):
+        c["obs_out"] = [tuple(e) for e in c["obs_out"]]
+    if c.get("premut"):
+        c["premut"] = dict(c["premut"], repl=[[tuple(e) for e in r] for r in c["premut"]["repl"]])
     return c
 
 
